@@ -34,6 +34,15 @@ def user_prog(rng, run_mode):
     return acts
 
 
+def with_yields(rng, acts):
+    out = []
+    for a in acts:
+        out.append(a)
+        while rng.random() < 0.35:
+            out.append("yield")
+    return out
+
+
 def mixed_case(rng, seed):
     run_mode = rng.random() < 0.7
     ops = ["sched %d" % seed]
@@ -43,7 +52,7 @@ def mixed_case(rng, seed):
     else:
         ops.append("drv steps %d %d" % (rng.randrange(2, 9), rng.choice([0, 0, 3])))
     for i in range(nusers):
-        ops.append("usr u%d %s" % (i + 1, " ".join(user_prog(rng, run_mode))))
+        ops.append("usr u%d %s" % (i + 1, " ".join(with_yields(rng, user_prog(rng, run_mode)))))
     if run_mode:
         ops.append("usr stopper waitothers stop")
     ops.append("go")
@@ -57,14 +66,14 @@ def silent_case(rng, seed):
     for i in range(n):
         acts = rng.choice([["udp", "close"], ["todo:0", "waittask"], ["udp", "sendto", "waitfut", "close"],
                            ["todo:2", "cancel"], ["todo:1", "shift:0", "waittask"], ["udp"]])
-        ops.append("usr u%d %s" % (i + 1, " ".join(acts)))
+        ops.append("usr u%d %s" % (i + 1, " ".join(with_yields(rng, acts))))
     ops.append("usr stopper waitothers stop")
     ops.append("go")
     return ops
 
 
 def stop_case(rng, seed):
-    t = rng.randrange(7)
+    t = rng.randrange(9)
     ops = ["sched %d" % seed]
     if t == 0:
         ops += ["drv run", "usr u1 stop"]
@@ -78,6 +87,11 @@ def stop_case(rng, seed):
         ops += ["drv run", "usr u1 udp sendto waitfut close", "usr u2 waitothers stop"]
     elif t == 5:
         ops += ["drv runs 2", "usr u1 todostop:0 waitrun:1 stop"]
+    elif t == 7:
+        # Stop while no Run is in progress, manual Steps in between (they may swallow the wake-up datagram), then Run
+        ops += ["drv stepsrun %d 0" % rng.randrange(1, 4), "usr u1 stop"]
+    elif t == 8:
+        ops += ["drv stepsrun 2 0", "usr u1 todostop:0"]
     else:
         ops += ["drv runs 3", "usr u1 stop waitrun:1 udp close stop", "usr u2 waitrun:2 stop"]
     ops.append("go")
@@ -89,4 +103,25 @@ def prefix_cases(base_ops, depth, branch):
     out = []
     for pref in itertools.product(range(branch), repeat=depth):
         out.append([("sched 7 " + " ".join(str(c) for c in pref))] + base_ops[1:])
+    return out
+
+
+RACE_TEMPLATES = [
+    # Cancel / destructor racing with the task / handler in progress (quiescence)
+    ["usr u1 todo:0 yield cancel"],
+    ["usr u1 todo:0 yield yield cancel"],
+    ["usr u1 todo:0 yield shift:0 yield cancel"],
+    ["usr u1 udp sendto yield yield close"],
+    ["usr u1 udp sendto waitfut yield close"],
+    ["usr u1 udp sendto yield close", "usr u2 todo:0 yield cancel"],
+    ["usr u1 todo:0 yield cancel", "usr u2 todo:0 yield cancel"],
+    ["usr u1 udp yield sendto yield sendto yield close"],
+]
+
+
+def race_cases(rng, per_template):
+    out = []
+    for tpl in RACE_TEMPLATES:
+        for _ in range(per_template):
+            out.append(["sched %d" % rng.randrange(1, 10**9), "drv run"] + tpl + ["usr stopper waitothers stop", "go"])
     return out
